@@ -21,7 +21,11 @@ the src_indices chain, omv/ref/flatmodel.py) combined with its own unit conversi
 round trip (both orders, fwd and rev, direct calls and System._scaled_context_all / _unscaled_context) must
 return the original data within 4 ulp of the largest operand of the affine map.
 
-Keys are '<operation>:<observable>'.
+System._matvec_context restricts the name sets of the linear vectors: inside it `in`, iteration, items()/values()
+(zeros for out-of-scope variables) and get_mask() must reflect exactly the scope given; afterwards the full sets.
+
+Keys are '<operation>:<observable>'.  An exception escaping OpenMDAO during setup or an operation on these legal
+inputs is a violation ('<operation>:raises:<Type>@<file>:<function>').
 """
 import operator
 import os
